@@ -80,7 +80,7 @@ Proof. intros A c K D st h m k l. apply call_frame. Qed.
 (** ---- the storing sites of the tree ------------------------------------------------------------ *)
 
 (** Whatever the numeric behaviour (all oracle arguments universally quantified): on the current tree
-    the models of NNDVI, HDDDM/CDBD, KdqTreeStreaming, KdqTreeBatch, PCACD, CUSUM and of the detectors
+    the models of NNDVI, HDDDM/CDBD, KdqTreeStreaming, KdqTreeBatch, PCACD, CUSUM, PageHinkley and of the detectors
     that keep numbers only store copies for EVERY container kind, and so does every ensemble of
     detectors that do.  Hence C15_noninterference_static applies with K = all_kinds. *)
 Theorem C15_copy_sites_safe :
@@ -91,6 +91,7 @@ Theorem C15_copy_sites_safe :
   (forall f g, stores_only_copies current all_kinds (kdq_batch P O p0 ok show f g)) /\
   (forall g, stores_only_copies current all_kinds (pcacd P O p0 ok show g)) /\
   (forall g, stores_only_copies current all_kinds (cusum P O p0 ok show g)) /\
+  (forall g, stores_only_copies current all_kinds (page_hinkley P O p0 ok show g)) /\
   (forall g, stores_only_copies current all_kinds (scalar_detector P O p0 ok show g)).
 Proof.
   intros A P O p0 ok show.
@@ -104,6 +105,7 @@ Proof.
   - apply kdq_batch_safe.
   - apply pcacd_safe.
   - apply W, cusum_safe.
+  - apply W, page_hinkley_safe.
   - apply scalar_safe.
 Qed.
 
@@ -133,14 +135,15 @@ Qed.
 
 (** before the repair of S13 the sites were safe on every container except one-block DataFrames *)
 Theorem C15_pre_S13_safe_except_one_block_frames :
-  forall (A P O : Type) (p0 : P) (ok : method -> P -> @value A -> bool) (show : P -> list (list value) -> O) f g g',
+  forall (A P O : Type) (p0 : P) (ok : method -> P -> @value A -> bool) (show : P -> list (list value) -> O) f g g' g'',
   let K := fun k => match k with KDFOne => false | _ => true end in
   stores_only_copies pre_S13 K (nndvi P O p0 ok show f g) /\
-  stores_only_copies pre_S13 K (cusum P O p0 ok show g').
+  stores_only_copies pre_S13 K (cusum P O p0 ok show g') /\
+  stores_only_copies pre_S13 K (page_hinkley P O p0 ok show g'').
 Proof.
-  intros A P O p0 ok show f g g' K.
+  intros A P O p0 ok show f g g' g'' K.
   assert (HK : forall k, K k = true -> copy_kinds pre_S13 k = true) by (intros [] H; try reflexivity; discriminate).
-  split; eapply stores_only_copies_weaken; try exact HK; [apply nndvi_safe | apply cusum_safe].
+  repeat split; eapply stores_only_copies_weaken; try exact HK; [apply nndvi_safe | apply cusum_safe | apply page_hinkley_safe].
 Qed.
 
 (** ---- witnesses ------------------------------------------------------------------------------- *)
@@ -256,6 +259,8 @@ Theorem C15_checker_tables :
        = [Store 0 SValidated] /\ origin_of (@SValidated A) = site_origin c SiteNndviRef) /\
    (forall g p sl (x : @value A), snd (sites (cusum P O p0 ok show g) MUpdate p sl x)
        = [Push 0 SValidated] /\ origin_of (@SValidated A) = site_origin c SiteCusumStream) /\
+   (forall g p sl (x : @value A), In (Push 0 SValidated) (snd (sites (page_hinkley P O p0 ok show g) MUpdate p sl x))
+       /\ origin_of (@SValidated A) = site_origin c SitePhScores) /\
    (forall f g p sl (x : @value A), fst (g p (one sl 0) x) = true ->
        snd (sites (hdm P O p0 ok show f g) MUpdate p sl x) = [Store 0 SFrameOfValidated]
        /\ origin_of (@SFrameOfValidated A) = site_origin c SiteHdmAdopted) /\
